@@ -263,6 +263,10 @@ func evalC19Seq(c C19SeqCase) *h.Finding {
 			lines = append(lines, "NOOPX\r\n")
 		case 'e':
 			lines = append(lines, "\r\n")
+		case 'R':
+			lines = append(lines, "RSET\r\n") // valid; goes through the transaction reset
+		case 'E':
+			lines = append(lines, "EHLO again.example\r\n") // valid; a repeated greeting resets the transaction
 		case 's':
 			lines = append(lines, "FOO\r\n") // too short to be a command: refused by the line parser itself
 		case 'n':
@@ -275,7 +279,7 @@ func evalC19Seq(c C19SeqCase) *h.Finding {
 		if closedAt >= 0 {
 			continue
 		}
-		if ch == 'v' {
+		if ch == 'v' || ch == 'R' || ch == 'E' {
 			want = append(want, "250")
 			continue
 		}
@@ -386,7 +390,7 @@ func C19(tier string) int {
 			}
 		}
 	}
-	run.Rule = fmt.Sprintf("(a) line limits %v x positions %v x {padded NOOP, padded MAIL command} x total line length limit-2..limit+4 x segmentation {line in one segment, one octet per segment, every 2-split of the line (limits 16, 64) / 2-splits around the limit (2000)}; (b) an endless LF-free line of 1 MiB at every position x {one segment, 4 KiB segments, per octet}: octets taken before closing <= limit + 2*4096; (c) ALL strings of <=%d octets over {NUL,CR,LF,SP,'A','a',':','<',0xFF} as command input in states {fresh, greeted, in transaction} x {one segment, per octet}; (d) ALL sequences of <=%d commands over {NOOP, unknown verb, mangled, empty line} and of one less over {NOOP, unknown, mangled, empty, too short, no space after the verb, MAIL} (two less) x {fresh, greeted} x {one segment, one per line, per octet}; (e) labelled supplement: seeded random binary input. Distinct by construction; non-trivial = line length within 2 of the limit or over it / string contains a control octet / sequence contains an error. Oracle: never a panic (escaped or recovered); >= limit+2: exactly one 500 5.4.0, closed, no backend call from the line or a prefix of it; <= limit: never refused for length, line and following NOOP answered; limit+1 not judged; exactly the 4th error closes with one extra 500.", limits, positions, strLen, seqLen)
+	run.Rule = fmt.Sprintf("(a) line limits %v x positions %v x {padded NOOP, padded MAIL command} x total line length limit-2..limit+4 x segmentation {line in one segment, one octet per segment, every 2-split of the line (limits 16, 64) / 2-splits around the limit (2000)}; (b) an endless LF-free line of 1 MiB at every position x {one segment, 4 KiB segments, per octet}: octets taken before closing <= limit + 2*4096; (c) ALL strings of <=%d octets over {NUL,CR,LF,SP,'A','a',':','<',0xFF} as command input in states {fresh, greeted, in transaction} x {one segment, per octet}; (d) ALL sequences of <=%d commands over {NOOP, unknown verb, mangled, empty line} and of one less over {NOOP, unknown, mangled, empty, too short, no space after the verb, MAIL} (two less), and over {unknown, mangled, RSET, repeated EHLO} x {fresh, greeted} x {one segment, one per line, per octet}; (e) labelled supplement: seeded random binary input. Distinct by construction; non-trivial = line length within 2 of the limit or over it / string contains a control octet / sequence contains an error. Oracle: never a panic (escaped or recovered); >= limit+2: exactly one 500 5.4.0, closed, no backend call from the line or a prefix of it; <= limit: never refused for length, line and following NOOP answered; limit+1 not judged; exactly the 4th error closes with one extra 500.", limits, positions, strLen, seqLen)
 	run.Assumptions = []string{"'unrecognised or malformed command' = unknown verb, empty line, or a line parseCmd cannot split; commands with a known verb and bad arguments are not in the threshold sequences", "message lines inside DATA are not command lines and are not judged here", "known finding D6 (limiter counts BDAT payload sharing a raw read) is demonstrated by one directed family and matched by signature"}
 
 	h.ParallelFor(len(lineCases), func(i int) {
@@ -461,6 +465,12 @@ func C19(tier string) int {
 	// (d) threshold sequences
 	var seqs []string
 	enumStrings([]byte("vumesnM"), seqLen-2, func(s []byte) { seqs = append(seqs, string(s)) })
+	// valid commands that reset the transaction between the errors: the error budget is per connection
+	enumStrings([]byte("uREm"), seqLen, func(s []byte) {
+		if strings.ContainsAny(string(s), "RE") {
+			seqs = append(seqs, string(s))
+		}
+	})
 	enumStrings([]byte("vume"), seqLen, func(s []byte) {
 		if len(s) == seqLen {
 			seqs = append(seqs, string(s))
